@@ -72,6 +72,15 @@ def invalid_documents(rng, ir, base_text):
         add("duplicate-interface", "interface ZzI { zzi: Int }\ntype ZzTwice implements ZzI & ZzI { zzi: Int }\nextend type %s { zzT: ZzTwice }" % q.name)
     add("duplicate-directive", "directive @zzdir on FIELD\ndirective @zzdir on FIELD")
     add("two-schema-definitions", S.schema_def_sdl(ir) + "\n" + S.schema_def_sdl(ir))
+    # an operation the base does not define, introduced twice by schema extensions only
+    for opname, present in (("mutation", ir.mutation), ("subscription", ir.subscription)):
+        if not present and "schema {" in base_text:
+            two = "type ZzOpA { a: Int }\ntype ZzOpB { b: Int }\n"
+            if rng.random() < 0.5:
+                add("extend-schema-operation-twice", two + "extend schema { %s: ZzOpA }\nextend schema { %s: ZzOpB }" % (opname, opname))
+            else:
+                add("extend-schema-operation-twice", two + "extend schema { %s: ZzOpA %s: ZzOpB }" % (opname, opname))
+            break
     if "schema {" not in base_text:
         add("duplicate-operation-type", "schema { query: %s query: %s }" % (q.name, q.name))
     add("unknown-field-type", "extend type %s { zzUnknown: NoSuchType }" % q.name)
